@@ -194,8 +194,7 @@ func observe(fm *fracmanager.FracManager, stage string, probes []Doc, variants m
 			r.NotExists = qpr.Aggs[0].NotExists
 			for bin, s := range qpr.Aggs[0].SamplesByBin {
 				if bin.Token == "_not_exists" {
-					r.NotExists += s.Total
-					continue
+					continue // legacy copy of NotExists
 				}
 				c := tokenCode("g:" + bin.Token)
 				if c < 0 {
